@@ -104,33 +104,35 @@ claim('C07',
       'MoleculeContainer.get_mapping with multi-component patterns and targets, symbolic scope subsets and both settings of '
       'the automorphism filter, and <=, <, is_substructure, is_equal agree with that set; lazy_product equals the cartesian '
       'product for symbolic iterator lengths; the automorphism generator returns exactly the (component-preserving) '
-      'automorphisms.',
+      'automorphisms; a stereo label on a query pattern restricts the match to images of the same configuration for every '
+      'spelling of the target (molecule patterns compare constitution only); mappings are collected before they are read, so each '
+      'must be an object of its own.',
       'Bounded: pattern <= 3 atoms / target <= 4-5 atoms (quick), 4 / 5 (thorough); shapes and atom numbers are concrete; '
       'exchanges of whole identical components by get_automorphism_mapping are not claimed.',
       'symbolic execution of the real matcher with z3-decided label equalities (minisym), brute-force oracle on the same '
       'symbolic labels', 'DESIGN.md §4 C07')
 claim('C03',
       'The tokenizer is re-compiled from its current source with character tests lifted to symbolic characters and run, '
-      'with the real parser, on every string of length <= 3 (quick; 4 thorough) and on 15 templates with symbolic '
+      'with the real parser, on every string of length <= 2 and length 3 with three first characters (quick; every string of length <= 3 thorough) and on 19 templates with symbolic '
       'characters at variable positions, each character ranging over all of Unicode (ASCII individually, non-ASCII by the '
       'classes the code can observe); the parse record is compared with an independent OpenSMILES-subset reader on the same '
       'symbolic string (atoms, isotopes, charges, hydrogens, maps, chirality marks, bonds and implicit orders, neighbour '
       'order, ring-closure pairing, direction marks), acceptance is judged at the public entry point, and any exception '
       'other than ValueError is a violation; bracket atoms from solver-enumerated field values (every charge spelling); '
-      'reaction arrows, CXSMILES radicals and fragment grouping.',
+      'reaction arrows, CXSMILES radical lists with symbolic role counts and indices, fragment grouping; where both ends of a double bond carry a direction mark (chain bond or either digit of a ring closure) the molecule built by the public reader has the configuration the independent reader derives.',
       'Bounded by string length / templates; a leading parenthesised group is treated as part of the language because the '
       'parser admits it on purpose; regex matching runs on realised bracket contents; the reference reader is mine.',
       'symbolic execution of the source-lifted tokenizer and the real parser with z3 (minisym), differential against an '
       'independent reader', 'DESIGN.md §4 C03')
 claim('C06',
-      'Ring perception is run on 22 (quick) / 34 (thorough) ring-system skeletons with every bond symbolically ordinary or '
+      'Ring perception is run on every labelled connected graph with each possible bond a solver boolean (4 and 5 atoms quick; 6 atoms with <= 5 rings and 7 atoms with <= 3 rings thorough) and on 22 (quick) / 35 (thorough) ring-system skeletons with every bond symbolically ordinary or '
       'coordinate (the solver forks the 2^bonds cases) and under every renumbering of the smaller skeletons (permutation '
       'realised by the solver): ring count = cyclomatic number without coordinate bonds, every ring a simple cycle of existing '
       'ordinary bonds, GF(2)-independent, total size and size multiset of a minimum cycle basis (computed by my own greedy '
       'basis over all simple cycles), atom/bond ring marks, ring sizes and connected components agree; size multiset '
       'independent of numbering.',
-      'Graph shape is not a solver variable (adjacency lives in dictionaries): the skeleton list is curated and avoids the two '
-      'recorded heuristic gaps; what is symbolic is the coordinate flag of every bond and the numbering.',
+      'The skeleton list is curated and avoids the two recorded heuristic gaps; symbolic are the presence of every bond '
+      '(labelled-graph harness), the coordinate flag of every bond and the numbering; 7 atoms with 4-5 rings and 8 atoms are not run.',
       'symbolic execution with solver-forked bond flags and solver-enumerated permutations (minisym), graph-theoretic oracle',
       'DESIGN.md §4 C06')
 claim('C17',
@@ -156,10 +158,11 @@ claim('C05',
       'Every random-order spelling (random() symbolic) of aromatic / aromatisable seeds, written from the aromatic and from the '
       'Kekule form, is read back and converted: the Kekule result has only orders 1-3, known hydrogens and no valence error, '
       'the same atoms / charges / radicals / hydrogens / connectivity / formula as the seed under the written correspondence; '
-      'thiele() gives the same aromatic string for every spelling; both conversions are idempotent; every enumerated Kekule '
-      'form is valid and aromatises to the same form. Ring templates with every position solver-enumerated are kekulised '
+      'thiele() gives the same aromatic string for every spelling; both conversions are idempotent; every Kekule form enumerated from the normalised aromatic form is valid, keeps atoms and hydrogens, '
+      'aromatises to the same form, and there are as many as perfect matchings of the aromatic bonds; the hydrogens of the Kekule '
+      'form are those the written seed gives each atom (independent reader); the seed as read and its Kekule form aromatise alike. Ring templates with every position solver-enumerated are kekulised '
       'exactly when a perfect matching of the double-bond acceptors exists (nitrogen may become pyrrole-like).',
-      'Bounded: 16 seeds (30 thorough), 5- and 6-membered templates over a 5- resp. 4-letter alphabet; unsaturated four-rings '
+      'Bounded: 19 seeds (44 thorough), 5- and 6-membered templates over a 5- resp. 4-letter alphabet; unsaturated four-rings '
       'and > 3 fused rings outside; relational oracle plus my matching model.',
       'symbolic execution of the real writer / reader / kekule / thiele with z3-decided write orders (minisym)',
       'DESIGN.md §4 C05')
@@ -169,9 +172,11 @@ claim('C14',
       'spelling, with heavy atoms conserved, net charge conserved on valence-valid input, and idempotence; explicify / '
       'implicify are exact and mutually inverse; canonicalize / standardize / neutralize / fix_resonance / tautomer '
       'enumeration on seeds conserve composition, stay valence-valid, are idempotent and independent of the input order '
-      '(tautomer fixing disabled for that clause).',
-      'Bounded: harvested pairs with <= 6 heavy-atom symbols in quick (all in thorough), 13 / 29 seeds; rule interactions '
-      'beyond these inputs outside; two recorded findings (azoxy-type canonical forms are not fixed points of standardize).',
+      '(tautomer fixing disabled for that clause), each with and without derived values read first; neutralize() with the default '
+      'keep_charge conserves charge and hydrogens; standardize_charges brings both resonance spellings of an azolium cation to one '
+      'form; explicify / implicify under every numbering with gaps (distinct solver integers).',
+      'Bounded: harvested pairs with <= 6 heavy-atom symbols in quick (all in thorough), 26 / 40 seeds; rule interactions '
+      'beyond these inputs outside; three recorded findings (azoxy-type canonical forms are not fixed points of standardize).',
       'symbolic execution of the real writer / reader / normalisers with z3-decided input orders (minisym)',
       'DESIGN.md §4 C14')
 claim('C20',
@@ -181,7 +186,7 @@ claim('C20',
       'numbers, elements, isotopes, charges, radicals preserved, and from_rdkit of the RDKit-parsed text is the chython-parsed '
       'text; aromatic and Kekule form.',
       'Lowest level of the claimed set: order nondeterminism only; seeds restricted to what both toolkits accept (carbon '
-      'stereocentres, stereo double bonds); coordinates and allenes not covered.',
+      'stereocentres, stereo double bonds, hydrogens written as atoms on stereocentres, coordinate bonds to a metal with per-atom hydrogen counts and dative direction checked); coordinates and allenes not covered.',
       'symbolic execution of the real writer/reader/bridge with z3-decided spelling orders (minisym); RDKit as concrete oracle',
       'DESIGN.md §4 C20')
 claim('C11',
@@ -189,19 +194,23 @@ claim('C11',
       '1000) and bond order (1, 2, 3, 4, 8) as solver variables go through all five real writers (V2000 / V3000 molecule and '
       'reaction files, MRV) and their readers and come back field by field in order, with title and metadata; the fixed-column '
       'writers refuse only what their columns cannot hold; reactions with symbolic role counts keep roles, order and mapping '
-      'numbers; stereo seeds with 2-D coordinates keep tetrahedral and cis/trans configuration through every format.',
-      'The variables are realised when the writer formats them: a solver-enumerated finite domain. Record splitting, damaged '
-      'records, random access, metadata escaping and foreign files are text plumbing with nothing symbolic left: not claimed '
-      '(see not_applicable note in DESIGN.md §5); the wedge <-> sign relation over all real coordinates is decided under C12.',
+      'numbers; stereo seeds (incl. meso triols and an allene) with 2-D coordinates keep their configuration through every format with the '
+      'default and the cis/trans-calculating reader; the decorated atom is first, middle or last; a wedged molecule sits in a '
+      'solver-chosen reaction role; the bond block may be listed in any order (solver permutation); files of 1..3 records: '
+      'access by index, seek and slices equal sequential reading, a record with a broken counts line at a solver-chosen position '
+      'is skipped and the others are read.',
+      'The variables are realised when the writer formats them: a solver-enumerated finite domain. Metadata escaping over all printable text, other kinds of damage and foreign files '
+      'beyond a permuted bond block are not claimed; the wedge <-> sign relation over all real coordinates is decided under C12.',
       'symbolic execution of the real writers and readers with solver-enumerated field values (minisym)', 'DESIGN.md §4 C11')
 claim('C16',
       'The template / input / result vectors of the repository\'s own (non-running) test_transformer.py, harvested by ast on '
-      'every run, and 9 synthetic templates (deletion with detached fragments, masked atoms, new atoms, charge change, bond '
-      'order change, identity) are applied to every random-order spelling of the input (random() symbolic): one product per '
+      'every run, and 20 synthetic templates (deletion with detached fragments also through bridged rings, masked atoms, new atoms, charge '
+      'change, bond order change, identity, untouched ring / chain stereo, E/Z requested by the replacement) are applied to every random-order spelling of the input (random() symbolic): one product per '
       'distinct match, the documented products for every input order, the same product set as for the original numbering, '
       'unique atom numbers, valence-valid products, unnamed atoms keep number / attributes / neighbours, named atoms get the '
       'requested charge and radical state, deleted atoms go with their detached fragments (my reachability oracle) unless masked, '
-      'the input is not modified.',
-      'Claimed narrowly: Transformer with the listed templates; the built-in reaction / deprotection collections and Reactor '
+      'the input is not modified; untouched stereocentres keep their configuration; two two-reactant Reactor templates on three '
+      'molecules in every order with colliding or disjoint numberings give the product set of the hand-disjoint reference.',
+      'Claimed narrowly: Transformer and Reactor with the listed templates; the built-in reaction / deprotection collections and other Reactor '
       'modes are outside; one recorded finding (stereo override depends on input atom order).',
       'symbolic execution of the real matcher / patcher with z3-decided input orders (minisym)', 'DESIGN.md §4 C16')
